@@ -8,6 +8,7 @@ memoize_stampede additionally runs 2-3 caller tasks plus its recompute thread
 under the seeded scheduler with seeded random().  DESIGN.md section 9, C16."""
 import hashlib
 import json
+import os
 import random
 
 from .. import seams, vals
@@ -28,7 +29,7 @@ RULE = ('one evaluation = one seeded run: a sequence of 10-80 calls f(*args, **k
         'distinct = SHA-256 of the case / event log')
 ASSUMPTIONS = ['the probe function ignores the arguments listed in `ignore` (a function whose result depends on ignored arguments is outside the contract)',
                'without typed=True, numerically equal arguments (1, 1.0, True) may or may not share an entry; results are compared with ==']
-PROBES = ('hits', 'expired_recompute', 'stampede_threads', 'typed_runs', 'ignore_runs', 'functions', 'raising_calls', 'falsy_results')
+PROBES = ('hits', 'expired_recompute', 'stampede_threads', 'typed_runs', 'ignore_runs', 'functions', 'raising_calls', 'falsy_results', 'keys_compared_across_interpreters')
 TECHNIQUE = 'deterministic simulation (virtual clock for expiry, seeded scheduler and random() for memoize_stampede) + differential checking against the undecorated function with an execution counter'
 LEVEL_TEXT = ('seeded exploration of call-signature sequences x decorator options under a controlled clock; key collisions show up as '
               'wrong results because the probe function encodes its call signature in its result; stampede recomputation is explored '
@@ -62,9 +63,18 @@ def gen_call(rng, nfun=1):
 
 def gen_case(seed, tier):
     rng = random.Random('%s/c16' % seed)
+    if seed % 64 == 5:
+        # keys across interpreters: calls with many keyword arguments, computed under two hash seeds
+        calls = []
+        for _ in range(12):
+            names = rng.sample(['a', 'x', 'b', 'key', 'user', 'page', 'q', 'lang', 'limit', 'offset', 'zeta', 'alpha'], rng.randint(2, 7))
+            calls.append({'args': [rng.choice(ALPHA) for _ in range(rng.randint(0, 2))], 'kwargs': {n: rng.choice(ALPHA) for n in names}})
+        return {'seed': seed, 'cfg': {'wrap': 'xproc', 'ignore': rng.choice(([], [0], ['a'], ['q', 'zeta'])),
+                                      'hashseeds': rng.sample(range(1, 1000), 2)}, 'calls': calls, 'prog': []}
     stampede = rng.random() < 0.2
     ignore = rng.choice(([], [], [], [0], [1], ['a'], [0, 'x'], [0, 2], [0, 1], [1, 2], [0, 2, 'a']))
-    cfg = {'wrap': 'stampede' if stampede else rng.choice(('cache', 'cache', 'fanout', 'index', 'django')),
+    cfg = {'dj_version': rng.choice((None, None, 2, 7)),      # DjangoCache.memoize(version=...): lookups and stores under that version
+           'wrap': 'stampede' if stampede else rng.choice(('cache', 'cache', 'fanout', 'index', 'django')),
            'typed': rng.random() < 0.5, 'ignore': ignore, 'name': rng.choice((None, None, 'fn-name')),
            'expire': rng.choice((None, None, 0, 5)), 'f12': rng.random() < 0.03}
     nfun = 1 if stampede else rng.choice((1, 1, 2, 3))
@@ -157,7 +167,7 @@ def build(world, cfg, counter, slow=None):
         from django.core.cache.backends.base import DEFAULT_TIMEOUT
         store = mod.DjangoCache(world.path('dj'), {'SHARDS': 2, 'TIMEOUT': 300})
         to = DEFAULT_TIMEOUT if cfg['expire'] is None else cfg['expire']
-        deco = store.memoize(name=cfg['name'], timeout=to, typed=cfg['typed'], ignore=ignore)
+        deco = store.memoize(name=cfg['name'], timeout=to, version=cfg.get('dj_version'), typed=cfg['typed'], ignore=ignore)
     else:
         store = dc.Cache(world.path('c')) if cfg.get('target', 'cache') == 'cache' else dc.FanoutCache(world.path('f'), shards=2)
         deco = dc.memoize_stampede(store, cfg['expire'], name=cfg['name'], typed=cfg['typed'], beta=cfg.get('beta', 1), ignore=ignore)
@@ -208,7 +218,7 @@ def _decorator(dc, store, cfg, ignore):
     if wrap == 'django':
         from django.core.cache.backends.base import DEFAULT_TIMEOUT
         to = DEFAULT_TIMEOUT if cfg['expire'] is None else cfg['expire']
-        return store.memoize(name=cfg['name'], timeout=to, typed=cfg['typed'], ignore=ignore)
+        return store.memoize(name=cfg['name'], timeout=to, version=cfg.get('dj_version'), typed=cfg['typed'], ignore=ignore)
     return dc.memoize_stampede(store, cfg['expire'], name=cfg['name'], typed=cfg['typed'], beta=cfg.get('beta', 1), ignore=ignore)
 
 
@@ -428,7 +438,71 @@ def run_stampede(case):
     return res
 
 
+XCHILD = r'''
+import json, shutil, sys, tempfile
+sys.path.insert(0, %(src)r)
+sys.path.insert(0, %(verif)r)
+import diskcache
+from simdc import vals
+req = json.load(sys.stdin)
+root = tempfile.mkdtemp(prefix='simdc-c16x-', dir=%(tmp)r)
+try:
+    cache = diskcache.Cache(root)
+    def fn(*args, **kwargs):
+        return None
+    out = []
+    for typed in (False, True):
+        for wrapper in ('memoize', 'stampede'):
+            if wrapper == 'memoize':
+                f = cache.memoize(name='n', typed=typed, ignore=set(req['ignore']))(fn)
+            else:
+                f = diskcache.memoize_stampede(cache, 100, name='n', typed=typed, ignore=set(req['ignore']))(fn)
+            for call in req['calls']:
+                args = tuple(vals.dec(a) for a in call['args'])
+                kwargs = {k: vals.dec(v) for k, v in call['kwargs'].items()}
+                out.append(repr(f.__cache_key__(*args, **kwargs)))
+    cache.close()
+    json.dump(out, sys.stdout)
+finally:
+    shutil.rmtree(root, ignore_errors=True)
+'''
+
+
+def run_xproc(case):
+    """The key of a call is the same in every process: computed in two fresh interpreters with different PYTHONHASHSEED
+    (set and dict iteration order of strings differs between them)."""
+    import subprocess
+    import sys
+    cfg = case['cfg']
+    violations = []
+    src = os.environ.get('DISKCACHE_SRC', '/repo')
+    here = os.path.dirname(os.path.dirname(os.path.dirname(os.path.abspath(__file__))))
+    tmp = '/dev/shm' if os.path.isdir('/dev/shm') else None
+    req = {'calls': case['calls'], 'ignore': cfg['ignore']}
+    outs = []
+    for hs in cfg['hashseeds']:
+        env = dict(os.environ, PYTHONHASHSEED=str(hs))
+        p = subprocess.run([sys.executable, '-B', '-c', XCHILD % {'src': src, 'verif': here, 'tmp': tmp}], input=json.dumps(req),
+                           capture_output=True, text=True, env=env, timeout=120)
+        if p.returncode != 0:
+            raise RuntimeError('memoize-key child failed: %s' % p.stderr[-500:])
+        outs.append(json.loads(p.stdout))
+    n = len(outs[0])
+    for i in range(n):
+        if outs[0][i] != outs[1][i]:
+            call = case['calls'][i % len(case['calls'])]
+            violations.append({'rule': 'C16/key-differs-between-processes', 'sig': 'kwargs' if call['kwargs'] else 'args',
+                               'detail': 'call %s: key %s under PYTHONHASHSEED=%s, %s under %s' % (
+                                   json.dumps(call), outs[0][i][:120], cfg['hashseeds'][0], outs[1][i][:120], cfg['hashseeds'][1])})
+            break
+    digest = hashlib.sha256(json.dumps(case, sort_keys=True).encode()).hexdigest()
+    return {'violations': violations, 'digest': digest, 'steps': n, 'switches': 0, 'fired': {}, 'probes': {'keys_compared_across_interpreters': n},
+            'virtual_s': 0.0, 'nontrivial': True, 'outcome': {'keys': n}}
+
+
 def run_case(case):
+    if case['cfg']['wrap'] == 'xproc':
+        return run_xproc(case)
     if case['cfg']['wrap'] == 'stampede':
         return run_stampede(case)
     return run_seq(case)
